@@ -1,6 +1,6 @@
 """C02 — arithmetic obeys precedence, associativity and parentheses for every expression."""
 import itertools
-import re
+import re, datetime
 from fractions import Fraction
 from tools import common as C, wire, oracle as O
 
@@ -10,7 +10,7 @@ THEOREMS = ["SCP.C02." + t for t in "parse_eval post_stable line_eval_partial ad
 RULE = ("random stratified expression trees (depth <= 12, literals: integers, fractions, attached signs, k/M/G/T/P/Z/Y suffixes, "
         "detached sign prefixes on literals and parentheses) rendered with random spacing (0-3 blanks per gap), adjacency sums, "
         "the same as right-hand side of an assignment; thorough: additionally ALL trees with <= 4 operators over a 3-literal pool x "
-        "3 spacings; excluded (by the property): token runs `a / b / c` (dates); oracle = the tree evaluated with IEEE doubles in tree "
+        "3 spacings; random trees exclude token runs `a / b / c`; a separate stream gives the chains `a / b / c` that are NOT a calendar date (day 29-31 of a shorter month, day 0 or 32+, month 0 or 13+), which the property keeps; oracle = the tree evaluated with IEEE doubles in tree "
         "order (bit-exact) and with exact rationals (tolerance); non-trivial = >= 1 operator; distinct = distinct line texts")
 ASSUMPTIONS = ["string level: for the arithmetic sub-language (digits, separators, blanks, operator characters) `SCP.Lex.lex_render` PROVES that every "
                "spacing of a line lexes to its pieces' tokens under the scanner model `codeLex`, which is compared token for token with the "
@@ -214,6 +214,25 @@ def run(ctx, model_ok):
             text = rng.choice(["x", "total", "my var"]) + rng.choice([" = ", "=", " =", "= "]) + text
             kind = "assign"
         cases.append({"text": text, "f": f, "q": q, "ops": nops(tree), "kind": kind})
+    # quotient chains 'a / b / c' that are NOT a calendar date (day 29-31 of a short month, day 0 or 32+, month 0 or 13+):
+    # the property excludes only the chains that read as a valid day/month/year
+    for _ in range(ctx.n(150, 3000)):
+        a = rng.choice([0, 29, 30, 31, 31, 32, 40, rng.randint(32, 99)])
+        b = rng.choice([2, 2, 4, 6, 9, 11, 13, 0, rng.randint(13, 40)])
+        c = rng.choice([rng.randint(1, 40), rng.randint(1, 9999), 2000, 2023, 1900])
+        try:
+            datetime.date(c, b, a)
+            continue            # a real date: excluded by the property
+        except ValueError:
+            pass
+        lit = lambda n: ("prim", ("lit", Lit(str(n))))
+        tree = ("one", ("div", ("div", ("one", lit(a)), lit(b)), lit(c)))
+        g = rng.choice(["", " ", "  "])
+        sp = lambda: g
+        text = render(tree, sp)
+        if rng.random() < 0.2:
+            text = "x = " + text
+        cases.append({"text": text, "f": evalf(tree), "q": evalq(tree), "ops": 2, "kind": "near-date"})
     if not ctx.quick():
         # all trees with <= 3 binary operators over a small literal pool, three spacings
         pool = [Lit("2"), Lit("-3"), Lit("0.5")]
